@@ -1147,7 +1147,8 @@ class Exec:
         saved_env = st.env
         st.env = dict(st.env)
         n = self.bind_iteration(st, gen.target, it, j)
-        st.pc.append(z3.And(0 <= j, j < n))
+        rng = z3.And(0 <= j, j < n)
+        st.pc.append(rng)
         self.binder_marks.append(([j], mark))
         try:
             if gen.ifs:
@@ -1158,18 +1159,21 @@ class Exec:
             terms = self.flat.pack(et, v)
         finally:
             self.binder_marks.pop()
-            self.close_binder(st, mark, [j])
+            self.close_binder(st, mark, [j], rng)
             st.env = saved_env
         comps = [z3.Lambda([j], t) for t in terms]
         return VSeq(comps, n, et, "list")
 
-    def close_binder(self, st, mark, vars_):
+    def close_binder(self, st, mark, vars_, rng):
         """leave a binder: facts assumed inside (callee postconditions, typing facts) are kept,
-        universally quantified over the bound variables under the binder's range condition"""
+        universally quantified over the bound variables under the binder's range condition `rng` (identified by
+        object identity: typing facts of the bound element may have been appended BEFORE it)"""
         inner = st.pc[mark:]
         del st.pc[mark:]
-        if len(inner) > 1 and not self.spec:
-            rng, facts = inner[0], inner[1:]
+        facts = [f for f in inner if f is not rng]
+        if len(facts) != len(inner) - 1:
+            raise Unsupported("internal: binder range condition not found among the facts of the binder")
+        if facts and not self.spec:
             st.pc.append(z3.ForAll(list(vars_), z3.Implies(rng, z3.And(*facts))))
 
     def bind_iteration(self, st, target, it, j):
